@@ -97,6 +97,9 @@ def run(repo, rep, tier):
         "filling an empty node, as an identity of rational functions - for the non-empty and the empty node; (R1.6) "
         "defs.combine/increment; (R1.7) the leaf formulas composed with themselves are associative. Decides the algebraic shape of merge over the reals; rounding is not decided."
     )
+    rep.extra["explanation"] += " " + (
+        'Later additions: (R1.1c) children of key-addressed slots are paired by key; (R1.1d) structural parameters of a+b and zero() come from the operands (per return); (R1.7) the leaf formulas composed with themselves are associative; (R1.8/R1.9/R1.10) shared rules of C07/C06: += keeps and updates the receiver on every path, a+b shares no child with its operands.'
+    )
     rep.not_decided += [
         "associativity of container merges beyond the leaves' formulas (follows from per-key/per-slot recursion, R1.1/R1.1b)",
         "the homomorphism for data-dependent key sets and floating-point rounding",
